@@ -274,7 +274,7 @@ class ACVoltageSource(schemdraw.elements.SourceSin):
         self._deg = deg
         self._sin = sin
         if self._sin:
-            self._phi -= np.pi/2
+            self._phi -= 90 if deg else np.pi/2
         self.segments.append(extension.voltage_arrow())
         label = ''
         label += f'{name}' if show_name else ''
@@ -317,7 +317,7 @@ class ACCurrentSource(schemdraw.elements.SourceSin):
         self._deg = deg
         self._sin = sin
         if self._sin:
-            self._phi -= np.pi/2
+            self._phi -= 90 if deg else np.pi/2
         label = ''
         label += f'{name}' if show_name else ''
         label += '=' if  show_name and show_value else ''
